@@ -10,6 +10,18 @@ SURPLUS_OUT = {'byte': ('Z', 0), 'char': ('Z', 0), 'short': ('Z', 0), 'three': (
                'bytes': ('Bytes', []), 'fixed': ('Str', []), 'fixedenc': ('Str', []), 'remaining': ('Z', 0)}
 
 
+# chunk lists tried first: strings holding RUNS of y-diaeresis (every one of them is a break byte unless sanitised), in each string form,
+# followed by chunks whose fields show any shift
+CORPUS = [
+    [[('fixed', [255, 255])], [('char', 5), ('short', 300)]],
+    [[('encfixed', [83, 255, 255, 108, 118])], [('char', 7)]],
+    [[('char', 1), ('str', [255, 255, 255])], [('int', 9)]],
+    [[('encstr', [255, 65, 255, 255])], [('three', 70000)], [('char', 2)]],
+    [[('fixed', [255] * 5)], [('fixed', [255, 121, 255, 255]), ('char', 3)]],
+    [[('short', 1), ('encstr', [255] * 4)], [], [('char', 9), ('str', [255, 255])], [('char', 4)]],
+]
+
+
 def write_chunks(wmod, chunks, pollute=False):
     if pollute:
         # the process has already written the same strings elsewhere with sanitisation off (other writers, other packets)
@@ -85,7 +97,7 @@ def run(tier):
     n = 500 if tier == 'quick' else 6000
     nprefix = nsurplus = narb = 0
     for t in range(n):
-        chunks = [gen_chunk(rng) for _ in range(rng.randrange(1, 7))]
+        chunks = [list(c) for c in CORPUS[t]] if t < len(CORPUS) else [gen_chunk(rng) for _ in range(rng.randrange(1, 7))]
         data = write_chunks(wmod, chunks, pollute=(t % 3 == 1))
         std = [std_plan(rng, its) for its in chunks]
         plans = [p for p, _ in std]
